@@ -1,1 +1,756 @@
-// harnesses for vu_frontend
+// Child module of vhost::vhost_user::frontend.
+//
+// Entry level: every public operation of `Frontend` (the Arc<Mutex<..>> handle an application uses)
+// run over the ghost kernel with symbolic arguments, symbolic negotiation words and a symbolic
+// peer reply.  One run of `e_frontend` asserts for that operation:
+//   C01  bytes written = spec encoding of (operation, arguments, flags); descriptors = the caller's,
+//        attached to the first send only
+//   C02  (frontend half) locally rejected calls put nothing on the wire
+//   C07  gated operations write nothing unless the gating feature is set in the cached words
+//   C03  (frontend half) a conformant reply is returned value-for-value; failure replies give Err;
+//        the call never waits for bytes a conformant peer does not send (BLOCKED)
+//   C06  anything that is not a reply to this very request gives Err, never a fabricated value
+use super::*;
+use crate::vhost_user::verif::ghost as g;
+use crate::vhost_user::verif::spec;
+use crate::vhost_user::verif::spec::{fe, pf};
+use std::mem::ManuallyDrop;
+use std::os::unix::io::FromRawFd;
+
+const LENT_FD: RawFd = 70; // descriptor the caller lends for transmission
+const LENT_FD2: RawFd = 71;
+
+struct St {
+    v: u64,
+    av: u64,
+    p: u64,
+    ap: u64,
+    maxq: u64,
+    need_reply: bool,
+}
+
+fn mk_frontend() -> (ManuallyDrop<Frontend>, St) {
+    let st = St { v: kani::any(), av: kani::any(), p: kani::any(), ap: kani::any(), maxq: kani::any(), need_reply: kani::any() };
+    // SAFETY: descriptor 5 is never used for real I/O (all socket calls are stubbed)
+    let ep = Endpoint::<VhostUserMsgHeader<FrontendReq>>::from_stream(unsafe { UnixStream::from_raw_fd(5) });
+    let f = ManuallyDrop::new(Frontend::new(ep, st.maxq));
+    {
+        let mut n = f.node();
+        n.virtio_features = st.v;
+        n.acked_virtio_features = st.av;
+        n.protocol_features = st.p;
+        n.acked_protocol_features = st.ap;
+        n.hdr_flags = if st.need_reply { VhostUserHeaderFlag::NEED_REPLY } else { VhostUserHeaderFlag::empty() };
+    }
+    // SAFETY: ghost bookkeeping
+    unsafe {
+        g::G.lent_lo = LENT_FD;
+        g::G.lent_hi = LENT_FD2 + 1;
+    }
+    (f, st)
+}
+
+/// peer reply: header (class-symbolic control words) + up to 40 symbolic body bytes + 0..=2 descriptors
+struct Reply {
+    code: u32,
+    flags: u32,
+    size: u32,
+    body: [u8; 40],
+    nfds: usize,
+}
+/// The reply's control words (request code, flags, size) are concrete per harness, selected by the
+/// reply class below; body bytes and descriptor count stay symbolic.  Symbolic control words make
+/// `get_code()`/`is_valid()` results symbolic, and because the endpoint state behind the public handle
+/// sits in an Arc (moved there by memcpy, which CBMC does not constant-propagate) every later drop then
+/// explores the io::Error drop glue (measured: 0.7M -> 2.7M steps, 30 s -> 170 s).  Arbitrary control words
+/// are covered at unit level (c06_u_*), where the endpoint is built on the stack.
+/// class 0: conformant (same code, version 1 | REPLY, exact size); 1: other request code;
+/// 2: REPLY flag missing; 3: version 2; 4: reserved flag bit set; 5: size one larger
+static mut REPLY_CLASS: (usize, u64) = (0, 0x7733_1199_5522_aa01);
+fn script_reply(req_code: u32, natural: usize, alive_after: bool) -> Reply {
+    // SAFETY: single-threaded harness
+    let class = unsafe { REPLY_CLASS.0 };
+    let code = if class == 1 { req_code + 1 } else { req_code };
+    let flags: u32 = match class {
+        2 => 0x1,
+        3 => 0x6,
+        4 => 0x15,
+        _ => 0x5,
+    };
+    let size = if class == 5 { natural as u32 + 1 } else { natural as u32 };
+    let body: [u8; 40] = kani::any();
+    let nfds: usize = kani::any();
+    kani::assume(nfds <= 2);
+    // SAFETY: ghost state
+    unsafe {
+        g::put_hdr(0, code, flags, size);
+        g::put64(12, spec::rd64(&body, 0));
+        g::put64(20, spec::rd64(&body, 8));
+        g::put64(28, spec::rd64(&body, 16));
+        g::put64(36, spec::rd64(&body, 24));
+        g::put64(44, spec::rd64(&body, 32));
+        g::G.rx_len = 12 + natural;
+        g::G.rx_closed = !alive_after;
+        g::G.rx_nfds = nfds;
+        g::G.rx_fd_call = 1;
+    }
+    Reply { code, flags, size, body, nfds }
+}
+impl Reply {
+    /// is this a reply to the request `req_code` at header level (C06: REPLY flag, same code, valid header)
+    fn hdr_matches(&self, req_code: u32) -> bool {
+        self.code == req_code && self.flags & spec::F_REPLY != 0
+            && spec::valid_header(spec::frontend_code_known(self.code), self.flags, self.size)
+    }
+    /// fully conformant header as a spec backend would write it
+    fn hdr_conformant(&self, req_code: u32, natural: usize) -> bool {
+        self.code == req_code && self.flags == (spec::F_VERSION_1 | spec::F_REPLY) && self.size as usize == natural
+    }
+}
+
+unsafe fn tx_is_header(code: u32, need_reply: bool, size: usize) {
+    assert!(g::tx32(0) == code, "C01: request code on the wire");
+    let fl = spec::F_VERSION_1 | if need_reply { spec::F_NEED_REPLY } else { 0 };
+    assert!(g::tx32(4) == fl, "C01: flags = version 1 (+NEED_REPLY when requested)");
+    assert!(g::tx32(8) == size as u32, "C01: size field = payload length");
+    assert!(g::G.tx_len == 12 + size, "C01: exactly header + payload bytes are written");
+    assert!(!g::G.tx_late_fds, "C01: descriptors only with the first byte");
+}
+
+/// the acknowledgement wait shared by all set-operations
+/// returns (expect_wait, reply)
+fn script_ack(code: u32, st: &St) -> (bool, Reply) {
+    let waits = st.need_reply && st.ap & pf::REPLY_ACK != 0;
+    (waits, script_reply(code, 8, true))
+}
+
+unsafe fn check_ack_outcome(code: u32, waits: bool, ok: bool, rep: &Reply) {
+    assert!(!g::G.blocked, "C03: must not wait for bytes the peer never sends");
+    if !waits {
+        assert!(g::G.rx_calls == 0, "C18/C03: no acknowledgement is awaited unless negotiated and requested");
+        assert!(ok, "C03: fire-and-forget operation succeeds once written");
+    } else {
+        let val = spec::rd64(&rep.body, 0);
+        if ok {
+            assert!(rep.hdr_matches(code), "C06: accepted an ack that is not a reply to this request");
+            assert!(rep.nfds == 0, "C06: ack with descriptors accepted");
+            assert!(val == 0, "C03: non-zero status reported as success");
+        }
+        if rep.hdr_conformant(code, 8) && rep.nfds == 0 {
+            assert!(ok == (val == 0), "C03: ack value 0 <=> success");
+        }
+    }
+}
+
+/// `op` selects the frontend operation (concrete per harness); everything else is symbolic
+fn e_frontend(op: u32, variant: usize) {
+    // SAFETY: single-threaded harness
+    unsafe { REPLY_CLASS.0 = variant >> 8 };
+    let variant = variant & 0xff;
+    let (f, st) = mk_frontend();
+    let mut wit = false; // the single reachability witness of this harness (set by the arm that runs)
+    let mut fm = ManuallyDrop::new((*f).clone());
+    let qi: usize = kani::any();
+    let q_ok = (qi as u64) < st.maxq;
+    let gate = |bit: u64| st.ap & bit != 0;
+    // SAFETY (whole function): ghost state is plain data, single-threaded
+    unsafe {
+        match op {
+            // ------------------------------------------------------------ value replies
+            fe::GET_FEATURES | fe::GET_PROTOCOL_FEATURES | fe::GET_QUEUE_NUM | fe::GET_MAX_MEM_SLOTS => {
+                let rep = script_reply(op, 8, true);
+                let allowed = match op {
+                    fe::GET_PROTOCOL_FEATURES => st.v & spec::VIRTIO_F_PROTOCOL_FEATURES != 0,
+                    fe::GET_QUEUE_NUM => gate(pf::MQ),
+                    fe::GET_MAX_MEM_SLOTS => gate(pf::CONFIGURE_MEM_SLOTS),
+                    _ => true,
+                };
+                let r: crate::Result<u64> = match op {
+                    fe::GET_FEATURES => f.get_features(),
+                    fe::GET_PROTOCOL_FEATURES => fm.get_protocol_features().map(|x| x.bits()),
+                    fe::GET_QUEUE_NUM => fm.get_queue_num(),
+                    _ => fm.get_max_mem_slots(),
+                };
+                wit = r.is_ok();
+                if !allowed {
+                    assert!(r.is_err() && g::G.tx_len == 0 && g::G.rx_calls == 0, "C07: gated query must not touch the wire");
+                } else {
+                    tx_is_header(op, st.need_reply, 0);
+                    assert!(g::G.tx_first_nfds == 0);
+                    assert!(!g::G.blocked, "C03: no indefinite wait");
+                    let val = spec::rd64(&rep.body, 0);
+                    if let Ok(got) = &r {
+                        assert!(rep.hdr_matches(op) && rep.nfds == 0, "C06: accepted bytes that are not the reply to this request");
+                        match op {
+                            // the API type drops undefined protocol-feature bits
+                            fe::GET_PROTOCOL_FEATURES => assert!(*got == val & 0x3f_ffff, "C03: value returned = value replied (defined bits)"),
+                            fe::GET_QUEUE_NUM => assert!(*got == val && val <= 0x8000, "C03/C06: queue count"),
+                            _ => assert!(*got == val, "C03: value returned = value replied"),
+                        }
+                    }
+                    if rep.hdr_conformant(op, 8) && rep.nfds == 0 && (op != fe::GET_QUEUE_NUM || val <= 0x8000) {
+                        assert!(r.is_ok(), "C03: conformant reply must be accepted");
+                    }
+                }
+                std::mem::forget(r);
+            }
+            fe::GET_VRING_BASE => {
+                let rep = script_reply(op, 8, true);
+                let r = f.get_vring_base(qi);
+                wit = r.is_ok();
+                if !q_ok {
+                    assert!(r.is_err() && g::G.tx_len == 0, "C02: queue index beyond the maximum is refused locally");
+                } else {
+                    tx_is_header(op, st.need_reply, 8);
+                    assert!(g::tx32(12) == qi as u32 && g::tx32(16) == 0, "C01: vring state body");
+                    assert!(!g::G.blocked);
+                    if let Ok(got) = &r {
+                        assert!(rep.hdr_matches(op) && rep.nfds == 0, "C06");
+                        assert!(*got == spec::rd32(&rep.body, 4), "C03: base = num field of the reply");
+                    }
+                    if rep.hdr_conformant(op, 8) && rep.nfds == 0 {
+                        assert!(r.is_ok(), "C03");
+                    }
+                }
+                std::mem::forget(r);
+            }
+            fe::CHECK_DEVICE_STATE => {
+                let rep = script_reply(op, 8, true);
+                let r = f.check_device_state();
+                wit = r.is_ok();
+                if !gate(pf::DEVICE_STATE) {
+                    assert!(r.is_err() && g::G.tx_len == 0, "C07: device-state transfer needs DEVICE_STATE");
+                } else {
+                    tx_is_header(op, st.need_reply, 0);
+                    assert!(!g::G.blocked);
+                    let val = spec::rd64(&rep.body, 0);
+                    if r.is_ok() {
+                        assert!(rep.hdr_matches(op) && rep.nfds == 0 && val == 0, "C03/C06: success only for a zero status reply");
+                    }
+                    if rep.hdr_conformant(op, 8) && rep.nfds == 0 {
+                        assert!(r.is_ok() == (val == 0), "C03");
+                    }
+                }
+                std::mem::forget(r);
+            }
+            // ------------------------------------------------------------ acknowledged set-operations
+            fe::SET_FEATURES | fe::SET_PROTOCOL_FEATURES => {
+                let val: u64 = kani::any();
+                let allowed = op == fe::SET_FEATURES || st.v & spec::VIRTIO_F_PROTOCOL_FEATURES != 0;
+                // SET_PROTOCOL_FEATURES itself changes the acked set the ack decision is based on
+                let pval = val & 0x3f_ffff;
+                let st2 = if op == fe::SET_PROTOCOL_FEATURES { St { ap: pval, ..St { v: st.v, av: st.av, p: st.p, ap: st.ap, maxq: st.maxq, need_reply: st.need_reply } } } else { St { v: st.v, av: st.av, p: st.p, ap: st.ap, maxq: st.maxq, need_reply: st.need_reply } };
+                let (waits, rep) = script_ack(op, &st2);
+                let r = if op == fe::SET_FEATURES { f.set_features(val) } else { fm.set_protocol_features(VhostUserProtocolFeatures::from_bits_truncate(val)) };
+                wit = r.is_ok();
+                if !allowed {
+                    assert!(r.is_err() && g::G.tx_len == 0, "C07: protocol-feature exchange needs the offered PROTOCOL_FEATURES bit");
+                } else {
+                    tx_is_header(op, st.need_reply, 8);
+                    assert!(g::tx64(12) == if op == fe::SET_FEATURES { val } else { pval }, "C01: u64 body");
+                    check_ack_outcome(op, waits, r.is_ok(), &rep);
+                }
+                std::mem::forget(r);
+            }
+            fe::SET_OWNER | fe::RESET_OWNER | fe::RESET_DEVICE => {
+                let (waits, rep) = script_ack(op, &st);
+                let allowed = op != fe::RESET_DEVICE || gate(pf::RESET_DEVICE);
+                let r = match op {
+                    fe::SET_OWNER => f.set_owner(),
+                    fe::RESET_OWNER => f.reset_owner(),
+                    _ => fm.reset_device(),
+                };
+                wit = r.is_ok();
+                if !allowed {
+                    assert!(r.is_err() && g::G.tx_len == 0, "C07");
+                } else {
+                    tx_is_header(op, st.need_reply, 0);
+                    assert!(g::G.tx_first_nfds == 0);
+                    check_ack_outcome(op, waits, r.is_ok(), &rep);
+                }
+                std::mem::forget(r);
+            }
+            fe::SET_VRING_NUM | fe::SET_VRING_BASE | fe::SET_VRING_ENABLE => {
+                let (waits, rep) = script_ack(op, &st);
+                let num: u16 = kani::any();
+                let en: bool = kani::any();
+                let allowed = op != fe::SET_VRING_ENABLE || st.av & spec::VIRTIO_F_PROTOCOL_FEATURES != 0;
+                let r = match op {
+                    fe::SET_VRING_NUM => f.set_vring_num(qi, num),
+                    fe::SET_VRING_BASE => f.set_vring_base(qi, num),
+                    _ => fm.set_vring_enable(qi, en),
+                };
+                wit = r.is_ok();
+                if !allowed || !q_ok {
+                    assert!(r.is_err() && g::G.tx_len == 0, "C07/C02: refused locally, nothing on the wire");
+                } else {
+                    tx_is_header(op, st.need_reply, 8);
+                    let second = if op == fe::SET_VRING_ENABLE { en as u32 } else { num as u32 };
+                    assert!(g::tx32(12) == qi as u32 && g::tx32(16) == second, "C01: vring state body");
+                    check_ack_outcome(op, waits, r.is_ok(), &rep);
+                }
+                std::mem::forget(r);
+            }
+            fe::SET_VRING_ADDR => {
+                let (waits, rep) = script_ack(op, &st);
+                let cfg = VringConfigData {
+                    queue_max_size: kani::any(), queue_size: kani::any(), flags: kani::any(),
+                    desc_table_addr: kani::any(), used_ring_addr: kani::any(), avail_ring_addr: kani::any(),
+                    log_addr: if kani::any() { Some(kani::any()) } else { None },
+                };
+                let r = f.set_vring_addr(qi, &cfg);
+                wit = r.is_ok();
+                if !q_ok || cfg.flags & !1 != 0 {
+                    assert!(r.is_err() && g::G.tx_len == 0, "C02: refused locally");
+                } else {
+                    tx_is_header(op, st.need_reply, 40);
+                    assert!(g::tx32(12) == qi as u32 && g::tx32(16) == cfg.flags);
+                    assert!(g::tx64(20) == cfg.desc_table_addr && g::tx64(28) == cfg.used_ring_addr && g::tx64(36) == cfg.avail_ring_addr);
+                    assert!(g::tx64(44) == cfg.log_addr.unwrap_or(0), "C01: vring addr body at spec offsets");
+                    check_ack_outcome(op, waits, r.is_ok(), &rep);
+                }
+                std::mem::forget(r);
+            }
+            fe::SET_VRING_KICK | fe::SET_VRING_CALL | fe::SET_VRING_ERR => {
+                let (waits, rep) = script_ack(op, &st);
+                let ev = ManuallyDrop::new(EventFd::from_raw_fd(LENT_FD));
+                let r = match op {
+                    fe::SET_VRING_KICK => f.set_vring_kick(qi, &ev),
+                    fe::SET_VRING_CALL => f.set_vring_call(qi, &ev),
+                    _ => f.set_vring_err(qi, &ev),
+                };
+                wit = r.is_ok();
+                if !q_ok {
+                    assert!(r.is_err() && g::G.tx_len == 0, "C02");
+                } else {
+                    tx_is_header(op, st.need_reply, 8);
+                    assert!(g::tx64(12) == qi as u64, "C01: index in the low bits, no-fd flag clear");
+                    assert!(g::G.tx_first_nfds == 1 && g::G.tx_first_fd0 == LENT_FD, "C01/C02: the caller's descriptor rides on the first byte");
+                    check_ack_outcome(op, waits, r.is_ok(), &rep);
+                }
+                assert!(!g::G.lent_closed, "C09: a lent descriptor must not be closed by the library");
+                std::mem::forget(r);
+            }
+            fe::SET_LOG_FD | fe::SET_BACKEND_REQ_FD => {
+                let (waits, rep) = script_ack(op, &st);
+                let allowed = op == fe::SET_LOG_FD || gate(pf::BACKEND_REQ);
+                let ev = ManuallyDrop::new(EventFd::from_raw_fd(LENT_FD));
+                let r = if op == fe::SET_LOG_FD { f.set_log_fd(LENT_FD) } else { fm.set_backend_request_fd(&*ev) };
+                wit = r.is_ok();
+                if !allowed {
+                    assert!(r.is_err() && g::G.tx_len == 0, "C07");
+                } else {
+                    tx_is_header(op, st.need_reply, 0);
+                    assert!(g::G.tx_first_nfds == 1 && g::G.tx_first_fd0 == LENT_FD, "C01");
+                    check_ack_outcome(op, waits, r.is_ok(), &rep);
+                }
+                assert!(!g::G.lent_closed, "C09");
+                std::mem::forget(r);
+            }
+            fe::ADD_MEM_REG | fe::REM_MEM_REG => {
+                let (waits, rep) = script_ack(op, &st);
+                let reg = VhostUserMemoryRegionInfo {
+                    guest_phys_addr: kani::any(), memory_size: kani::any(), userspace_addr: kani::any(),
+                    mmap_offset: kani::any(), mmap_handle: if kani::any() { LENT_FD } else { -1 },
+                };
+                let r = if op == fe::ADD_MEM_REG { fm.add_mem_region(&reg) } else { fm.remove_mem_region(&reg) };
+                wit = r.is_ok();
+                let local_ok = reg.memory_size != 0 && (op == fe::REM_MEM_REG || reg.mmap_handle >= 0);
+                if !gate(pf::CONFIGURE_MEM_SLOTS) || !local_ok {
+                    assert!(r.is_err() && g::G.tx_len == 0, "C07/C02: refused locally");
+                } else {
+                    tx_is_header(op, st.need_reply, 40);
+                    assert!(g::tx64(12) == 0, "C01: padding");
+                    assert!(g::tx64(20) == reg.guest_phys_addr && g::tx64(28) == reg.memory_size && g::tx64(36) == reg.userspace_addr && g::tx64(44) == reg.mmap_offset, "C01: single region body");
+                    if op == fe::ADD_MEM_REG {
+                        assert!(g::G.tx_first_nfds == 1 && g::G.tx_first_fd0 == LENT_FD);
+                    } else {
+                        assert!(g::G.tx_first_nfds == 0);
+                    }
+                    check_ack_outcome(op, waits, r.is_ok(), &rep);
+                }
+                assert!(!g::G.lent_closed, "C09");
+                std::mem::forget(r);
+            }
+            fe::SET_INFLIGHT_FD => {
+                let (waits, rep) = script_ack(op, &st);
+                let inf = VhostUserInflight::new(kani::any(), kani::any(), kani::any(), kani::any());
+                let fd: RawFd = if kani::any() { LENT_FD } else { -1 };
+                let r = fm.set_inflight_fd(&inf, fd);
+                wit = r.is_ok();
+                let local_ok = inf.mmap_size != 0 && inf.num_queues != 0 && inf.queue_size != 0 && fd >= 0;
+                if !gate(pf::INFLIGHT_SHMFD) || !local_ok {
+                    assert!(r.is_err() && g::G.tx_len == 0, "C07/C02");
+                } else {
+                    tx_is_header(op, st.need_reply, 24);
+                    assert!(g::tx64(12) == inf.mmap_size && g::tx64(20) == inf.mmap_offset);
+                    assert!(g::tx32(28) == (inf.num_queues as u32 | (inf.queue_size as u32) << 16), "C01: inflight body");
+                    assert!(g::G.tx_first_nfds == 1 && g::G.tx_first_fd0 == LENT_FD);
+                    check_ack_outcome(op, waits, r.is_ok(), &rep);
+                }
+                std::mem::forget(r);
+            }
+            fe::SET_CONFIG => {
+                let (waits, rep) = script_ack(op, &st);
+                let off: u32 = kani::any();
+                let flb: u8 = kani::any();
+                let flags = VhostUserConfigFlags::from_bits_truncate(flb as u32);
+                let data: [u8; 4] = kani::any();
+                // payload length concrete per harness (a symbolic length makes the send loops unbounded for CBMC)
+                let len: usize = variant;
+                let r = fm.set_config(off, flags, &data[..len]);
+                wit = if len == 0 { r.is_err() } else { r.is_ok() };
+                let local_ok = len >= 1 && (off as u64) + (len as u64) <= 0x1000;
+                if !local_ok || !gate(pf::CONFIG) {
+                    assert!(r.is_err() && g::G.tx_len == 0, "C07/C02: invalid config window or un-negotiated CONFIG");
+                } else {
+                    tx_is_header(op, st.need_reply, 12 + len);
+                    assert!(g::tx32(12) == off && g::tx32(16) == len as u32 && g::tx32(20) == (flb as u32 & 3), "C01: config header");
+                    assert!(g::tx8(24) == data[0] && (len < 4 || g::tx8(27) == data[3]), "C01: config payload follows the header");
+                    check_ack_outcome(op, waits, r.is_ok(), &rep);
+                }
+                std::mem::forget(r);
+            }
+            fe::SET_MEM_TABLE => {
+                let (waits, rep) = script_ack(op, &st);
+                let n: usize = variant; // region count concrete per harness (0, 1 or 2)
+                let r0 = VhostUserMemoryRegionInfo { guest_phys_addr: kani::any(), memory_size: kani::any(), userspace_addr: kani::any(), mmap_offset: kani::any(), mmap_handle: if kani::any() { LENT_FD } else { -1 } };
+                let r1 = VhostUserMemoryRegionInfo { guest_phys_addr: kani::any(), memory_size: kani::any(), userspace_addr: kani::any(), mmap_offset: kani::any(), mmap_handle: LENT_FD2 };
+                let regs = [r0, r1];
+                let r = f.set_mem_table(&regs[..n]);
+                wit = if n == 0 { r.is_err() } else { r.is_ok() };
+                let local_ok = n >= 1 && r0.memory_size != 0 && r0.mmap_handle >= 0 && (n < 2 || r1.memory_size != 0);
+                if !local_ok {
+                    assert!(r.is_err() && g::G.tx_len == 0, "C02: empty list / zero-sized region / bad handle refused locally");
+                } else {
+                    tx_is_header(op, st.need_reply, 8 + 32 * n);
+                    assert!(g::tx32(12) == n as u32 && g::tx32(16) == 0, "C01: region count, zero padding");
+                    assert!(g::tx64(20) == r0.guest_phys_addr && g::tx64(28) == r0.memory_size && g::tx64(36) == r0.userspace_addr && g::tx64(44) == r0.mmap_offset);
+                    if n == 2 {
+                        assert!(g::tx64(52) == r1.guest_phys_addr && g::tx64(60) == r1.memory_size && g::tx64(68) == r1.userspace_addr && g::tx64(76) == r1.mmap_offset);
+                    }
+                    assert!(g::G.tx_first_nfds == n && g::G.tx_first_fd0 == LENT_FD && (n < 2 || g::G.tx_first_fd1 == LENT_FD2), "C01: one descriptor per region, in order");
+                    check_ack_outcome(op, waits, r.is_ok(), &rep);
+                }
+                assert!(!g::G.lent_closed, "C09");
+                std::mem::forget(r);
+            }
+            // ------------------------------------------------------------ replies carrying a descriptor
+            fe::GET_INFLIGHT_FD => {
+                let rep = script_reply(op, 24, true);
+                let inf = VhostUserInflight::new(kani::any(), kani::any(), kani::any(), kani::any());
+                let r = fm.get_inflight_fd(&inf);
+                wit = r.is_ok();
+                if !gate(pf::INFLIGHT_SHMFD) {
+                    assert!(r.is_err() && g::G.tx_len == 0, "C07");
+                } else {
+                    tx_is_header(op, st.need_reply, 24);
+                    assert!(g::tx64(12) == inf.mmap_size && g::tx64(20) == inf.mmap_offset);
+                    assert!(!g::G.blocked);
+                    if let Ok((got, file)) = &r {
+                        assert!(rep.hdr_matches(op) && spec::valid_inflight(&rep.body), "C06");
+                        assert!(rep.nfds == 1 && file.as_raw_fd() == g::FD_BASE, "C03/C06: exactly the one returned descriptor");
+                        assert!(got.mmap_size == spec::rd64(&rep.body, 0) && got.mmap_offset == spec::rd64(&rep.body, 8));
+                        assert!(got.num_queues == spec::rd16(&rep.body, 16) && got.queue_size == spec::rd16(&rep.body, 18), "C03");
+                    }
+                    if rep.hdr_conformant(op, 24) && spec::valid_inflight(&rep.body) && rep.nfds == 1 {
+                        assert!(r.is_ok(), "C03");
+                    }
+                    // C09: descriptors that arrived and were not handed to the caller are closed
+                    if r.is_err() {
+                        assert!(g::G.fd_state[0] != g::FD_OPEN && g::G.fd_state[1] != g::FD_OPEN, "C09: reply descriptors leaked on the error path");
+                    }
+                    assert!(!g::G.double_close);
+                }
+                std::mem::forget(r);
+            }
+            fe::GET_SHARED_OBJECT => {
+                let rep = script_reply(op, 0, true);
+                let ub: [u8; 16] = kani::any();
+                let uuid = VhostUserSharedMsg { uuid: uuid::Uuid::from_bytes(ub) };
+                let r = fm.get_shared_object(&uuid);
+                wit = r.is_ok();
+                if !gate(pf::SHARED_OBJECT) || !spec::valid_shared(&ub) {
+                    assert!(r.is_err() && g::G.tx_len == 0, "C07/C02");
+                } else {
+                    tx_is_header(op, st.need_reply, 16);
+                    assert!(g::tx64(12) == spec::rd64(&ub, 0) && g::tx64(20) == spec::rd64(&ub, 8), "C01: uuid bytes");
+                    assert!(!g::G.blocked);
+                    if let Ok(file) = &r {
+                        assert!(rep.hdr_matches(op) && rep.nfds == 1 && file.as_raw_fd() == g::FD_BASE, "C03/C06");
+                    }
+                    if rep.hdr_conformant(op, 0) {
+                        assert!(r.is_ok() == (rep.nfds == 1), "C03: a reply without descriptor is the failure encoding");
+                    }
+                    if r.is_err() {
+                        assert!(g::G.fd_state[0] != g::FD_OPEN && g::G.fd_state[1] != g::FD_OPEN, "C09");
+                    }
+                }
+                std::mem::forget(r);
+            }
+            fe::SET_DEVICE_STATE_FD => {
+                let rep = script_reply(op, 8, true);
+                let dir = if kani::any() { VhostTransferStateDirection::SAVE } else { VhostTransferStateDirection::LOAD };
+                // the OwnedFd argument is consumed by the call: the library may (and does) close it
+                let owned = std::os::fd::OwnedFd::from_raw_fd(LENT_FD2 + 10);
+                let r = f.set_device_state_fd(dir, VhostTransferStatePhase::STOPPED, owned);
+                wit = if variant == 0 { matches!(&r, Ok(Some(_))) } else { matches!(&r, Ok(None)) };
+                if !gate(pf::DEVICE_STATE) {
+                    assert!(r.is_err() && g::G.tx_len == 0, "C07: device-state transfer needs DEVICE_STATE");
+                } else {
+                    tx_is_header(op, st.need_reply, 8);
+                    assert!(g::tx32(12) == dir as u32 && g::tx32(16) == 0, "C01: direction, phase");
+                    assert!(g::G.tx_first_nfds == 1 && g::G.tx_first_fd0 == LENT_FD2 + 10);
+                    assert!(!g::G.blocked);
+                    let val = spec::rd64(&rep.body, 0);
+                    match &r {
+                        Ok(Some(file)) => assert!(rep.hdr_matches(op) && val == 0 && rep.nfds == 1 && file.as_raw_fd() == g::FD_BASE, "C03/C06"),
+                        Ok(None) => assert!(rep.hdr_matches(op) && val == 0x100 && rep.nfds == 0, "C03/C06"),
+                        Err(_) => {}
+                    }
+                    if rep.hdr_conformant(op, 8) {
+                        let good = (val == 0 && rep.nfds == 1) || (val == 0x100 && rep.nfds == 0);
+                        assert!(r.is_ok() == good, "C03: any other status / missing file is an error");
+                    }
+                    if !matches!(&r, Ok(Some(_))) {
+                        assert!(g::G.fd_state[0] != g::FD_OPEN && g::G.fd_state[1] != g::FD_OPEN, "C09");
+                    }
+                }
+                std::mem::forget(r);
+            }
+            // SET_LOG_BASE: with LOG_SHMFD and a region -> 16-byte body + descriptor + echoed reply;
+            // otherwise the plain u64 base, no reply
+            fe::SET_LOG_BASE => {
+                let rep = script_reply(op, 16, true);
+                let base: u64 = kani::any();
+                let with_region: bool = kani::any();
+                let region = VhostUserDirtyLogRegion { mmap_size: kani::any(), mmap_offset: kani::any(), mmap_handle: LENT_FD };
+                let r = f.set_log_base(base, if with_region { Some(region) } else { None });
+                wit = r.is_ok() && with_region && gate(pf::LOG_SHMFD);
+                if with_region && gate(pf::LOG_SHMFD) {
+                    tx_is_header(op, st.need_reply, 16);
+                    assert!(g::tx64(12) == region.mmap_size && g::tx64(20) == region.mmap_offset, "C01: log body");
+                    assert!(g::G.tx_first_nfds == 1 && g::G.tx_first_fd0 == LENT_FD);
+                    assert!(!g::G.blocked);
+                    if r.is_ok() {
+                        assert!(rep.hdr_matches(op) && rep.nfds == 0 && spec::valid_log(&rep.body), "C06");
+                    }
+                    if rep.hdr_conformant(op, 16) && rep.nfds == 0 && spec::valid_log(&rep.body) {
+                        assert!(r.is_ok(), "C03");
+                    }
+                } else {
+                    tx_is_header(op, st.need_reply, 8);
+                    assert!(g::tx64(12) == base && g::G.tx_first_nfds == 0 && g::G.rx_calls == 0 && r.is_ok());
+                }
+                assert!(!g::G.lent_closed, "C09");
+                std::mem::forget(r);
+            }
+            // GET_CONFIG: reply = config header + payload of the requested size; a zero-size reply
+            // without payload is the backend's failure encoding (`variant`: which reply the peer sends)
+            _ => {}
+        }
+    }
+    // with a reply that answers another request the witness is the error path
+    let wrong = unsafe { REPLY_CLASS.0 >= 1 && REPLY_CLASS.0 <= 4 && g::G.rx_calls > 0 };
+    kani::cover!(if wrong { !wit } else { wit }, "witness: the operation's success path (error path for a foreign reply) is reachable");
+}
+
+/// GET_CONFIG separately: the reply length depends on the request (payload of LEN bytes).
+/// `class`: 0 conformant reply, 1 failure encoding (size 0, no payload, peer stays connected),
+/// 2 reply for another window offset, 3 reply with a shorter size field.
+/// Offset/flags of the request and the control words of the reply are concrete here (symbolic ones made
+/// the SAT instance exceed 40 GB: the payload Vec is merged over a dozen early returns); the payload
+/// bytes, the request bytes and the negotiation words are symbolic.
+fn e_frontend_get_config(class: usize) {
+    let (f, st) = mk_frontend();
+    let mut fm = ManuallyDrop::new((*f).clone());
+    let off: u32 = 0x10;
+    let flags = VhostUserConfigFlags::WRITABLE;
+    let data: [u8; 4] = kani::any();
+    const LEN: usize = 4;
+    let op = fe::GET_CONFIG;
+    let peer_fails = class == 1;
+    let rsize: u32 = match class { 1 => 0, 3 => 3, _ => LEN as u32 };
+    let roff: u32 = if class == 2 { off + 4 } else { off };
+    let rdata: [u8; 4] = kani::any();
+    let natural = if peer_fails { 12 } else { 12 + LEN };
+    // SAFETY: ghost state
+    unsafe {
+        g::put_hdr(0, op, 0x5, natural as u32);
+        g::put32(12, roff);
+        g::put32(16, rsize);
+        g::put32(20, 1);
+        g::put32(24, spec::rd32(&rdata, 0));
+        g::G.rx_len = 12 + natural;
+        g::G.rx_closed = false; // the backend stays connected after its reply
+        g::G.rx_nfds = 0;
+    }
+    let r = fm.get_config(off, LEN as u32, flags, &data[..]);
+    kani::cover!(if class == 0 { r.is_ok() } else { r.is_err() && unsafe { g::G.rx_calls > 0 } }, "witness: config read accepted / failed after the reply");
+    // SAFETY: ghost state
+    unsafe {
+        if st.ap & pf::CONFIG == 0 {
+            assert!(r.is_err() && g::G.tx_len == 0, "C07: un-negotiated CONFIG");
+        } else {
+            tx_is_header(op, st.need_reply, 12 + LEN);
+            assert!(g::tx32(12) == off && g::tx32(16) == LEN as u32 && g::tx32(20) == 1);
+            assert!(g::tx32(24) == spec::rd32(&data, 0), "C01: request payload");
+            assert!(!g::G.blocked, "C03: the failure reply carries no payload; waiting for it blocks forever while the peer is alive");
+            if let Ok((cfg, payload)) = &r {
+                assert!(class == 0, "C03/C06: only the conformant reply may be reported as success");
+                assert!(cfg.size == LEN as u32 && cfg.offset == off);
+                assert!(payload.len() == LEN && payload[0] == rdata[0] && payload[3] == rdata[3], "C03: configuration bytes");
+            } else {
+                assert!(class != 0, "C03: conformant config reply must be accepted");
+            }
+        }
+    }
+    std::mem::forget(r);
+}
+
+macro_rules! e_fe {
+    ($name:ident, $op:expr, $variant:expr) => {
+        #[kani::proof]
+        #[kani::unwind(5)]
+        #[kani::stub(vmm_sys_util::sock_ctrl_msg::raw_recvmsg, g::ghost_recvmsg)]
+        #[kani::stub(vmm_sys_util::sock_ctrl_msg::raw_sendmsg, g::ghost_sendmsg)]
+        #[kani::stub(libc::close, g::ghost_close)]
+        #[kani::stub(<std::os::fd::OwnedFd as std::ops::Drop>::drop, g::ghost_ownedfd_drop)]
+        #[kani::stub(std::alloc::handle_alloc_error, g::ghost_alloc_error)]
+        fn $name() {
+            e_frontend($op, $variant)
+        }
+    };
+}
+macro_rules! e_fe_cfg {
+    ($name:ident, $fails:expr) => {
+        #[kani::proof]
+        #[kani::unwind(5)]
+        #[kani::stub(vmm_sys_util::sock_ctrl_msg::raw_recvmsg, g::ghost_recvmsg)]
+        #[kani::stub(vmm_sys_util::sock_ctrl_msg::raw_sendmsg, g::ghost_sendmsg)]
+        #[kani::stub(libc::close, g::ghost_close)]
+        #[kani::stub(<std::os::fd::OwnedFd as std::ops::Drop>::drop, g::ghost_ownedfd_drop)]
+        #[kani::stub(std::alloc::handle_alloc_error, g::ghost_alloc_error)]
+        fn $name() {
+            e_frontend_get_config($fails)
+        }
+    };
+}
+
+// ==== generated by tools/gen_e_fe.py ====
+// @harness props=C01,C02,C03,C06 tier=quick reach=off timeout=500 bound="Frontend::get_features: all argument values, five 64-bit negotiation/limit words, NEED_REPLY on/off, peer reply header of one concrete class (conformant unless named in the harness), 40 symbolic body bytes, 0..=2 descriptors; one call" stubs="vmm-sys-util raw_recvmsg/raw_sendmsg (ghost stream socket), libc::close + OwnedFd::drop (ghost descriptor table), handle_alloc_error (assume false)"
+e_fe!(e_fe_get_features, 1, 0);
+// @harness props=C01,C02,C03,C06 tier=quick reach=off timeout=500 bound="Frontend::get_features_foreign_code: all argument values, five 64-bit negotiation/limit words, NEED_REPLY on/off, peer reply header of one concrete class (conformant unless named in the harness), 40 symbolic body bytes, 0..=2 descriptors; one call" stubs="vmm-sys-util raw_recvmsg/raw_sendmsg (ghost stream socket), libc::close + OwnedFd::drop (ghost descriptor table), handle_alloc_error (assume false)"
+e_fe!(e_fe_get_features_foreign_code, 1, 256);
+// @harness props=C01,C02,C03,C06 tier=quick reach=off timeout=500 bound="Frontend::get_features_noreplyflag: all argument values, five 64-bit negotiation/limit words, NEED_REPLY on/off, peer reply header of one concrete class (conformant unless named in the harness), 40 symbolic body bytes, 0..=2 descriptors; one call" stubs="vmm-sys-util raw_recvmsg/raw_sendmsg (ghost stream socket), libc::close + OwnedFd::drop (ghost descriptor table), handle_alloc_error (assume false)"
+e_fe!(e_fe_get_features_noreplyflag, 1, 512);
+// @harness props=C01,C02,C03,C06 tier=thorough reach=off timeout=500 bound="Frontend::get_features_version2: all argument values, five 64-bit negotiation/limit words, NEED_REPLY on/off, peer reply header of one concrete class (conformant unless named in the harness), 40 symbolic body bytes, 0..=2 descriptors; one call" stubs="vmm-sys-util raw_recvmsg/raw_sendmsg (ghost stream socket), libc::close + OwnedFd::drop (ghost descriptor table), handle_alloc_error (assume false)"
+e_fe!(e_fe_get_features_version2, 1, 768);
+// @harness props=C01,C02,C03,C06 tier=thorough reach=off timeout=500 bound="Frontend::get_features_reservedbit: all argument values, five 64-bit negotiation/limit words, NEED_REPLY on/off, peer reply header of one concrete class (conformant unless named in the harness), 40 symbolic body bytes, 0..=2 descriptors; one call" stubs="vmm-sys-util raw_recvmsg/raw_sendmsg (ghost stream socket), libc::close + OwnedFd::drop (ghost descriptor table), handle_alloc_error (assume false)"
+e_fe!(e_fe_get_features_reservedbit, 1, 1024);
+// @harness props=C01,C02,C03,C06 tier=thorough reach=off timeout=500 bound="Frontend::get_features_size_plus1: all argument values, five 64-bit negotiation/limit words, NEED_REPLY on/off, peer reply header of one concrete class (conformant unless named in the harness), 40 symbolic body bytes, 0..=2 descriptors; one call" stubs="vmm-sys-util raw_recvmsg/raw_sendmsg (ghost stream socket), libc::close + OwnedFd::drop (ghost descriptor table), handle_alloc_error (assume false)"
+e_fe!(e_fe_get_features_size_plus1, 1, 1280);
+// @harness props=C01,C02,C03,C06 tier=quick reach=off timeout=500 bound="Frontend::set_features: all argument values, five 64-bit negotiation/limit words, NEED_REPLY on/off, peer reply header of one concrete class (conformant unless named in the harness), 40 symbolic body bytes, 0..=2 descriptors; one call" stubs="vmm-sys-util raw_recvmsg/raw_sendmsg (ghost stream socket), libc::close + OwnedFd::drop (ghost descriptor table), handle_alloc_error (assume false)"
+e_fe!(e_fe_set_features, 2, 0);
+// @harness props=C01,C02,C03,C06 tier=thorough reach=off timeout=500 bound="Frontend::set_owner: all argument values, five 64-bit negotiation/limit words, NEED_REPLY on/off, peer reply header of one concrete class (conformant unless named in the harness), 40 symbolic body bytes, 0..=2 descriptors; one call" stubs="vmm-sys-util raw_recvmsg/raw_sendmsg (ghost stream socket), libc::close + OwnedFd::drop (ghost descriptor table), handle_alloc_error (assume false)"
+e_fe!(e_fe_set_owner, 3, 0);
+// @harness props=C01,C02,C03,C06 tier=thorough reach=off timeout=500 bound="Frontend::reset_owner: all argument values, five 64-bit negotiation/limit words, NEED_REPLY on/off, peer reply header of one concrete class (conformant unless named in the harness), 40 symbolic body bytes, 0..=2 descriptors; one call" stubs="vmm-sys-util raw_recvmsg/raw_sendmsg (ghost stream socket), libc::close + OwnedFd::drop (ghost descriptor table), handle_alloc_error (assume false)"
+e_fe!(e_fe_reset_owner, 4, 0);
+// @harness props=C01,C02,C03,C06,C09 tier=quick reach=off timeout=500 bound="Frontend::set_mem_table_2regions: all argument values, five 64-bit negotiation/limit words, NEED_REPLY on/off, peer reply header of one concrete class (conformant unless named in the harness), 40 symbolic body bytes, 0..=2 descriptors; one call" stubs="vmm-sys-util raw_recvmsg/raw_sendmsg (ghost stream socket), libc::close + OwnedFd::drop (ghost descriptor table), handle_alloc_error (assume false)"
+e_fe!(e_fe_set_mem_table_2regions, 5, 2);
+// @harness props=C01,C02,C03,C06,C09 tier=thorough reach=off timeout=500 bound="Frontend::set_mem_table_1region: all argument values, five 64-bit negotiation/limit words, NEED_REPLY on/off, peer reply header of one concrete class (conformant unless named in the harness), 40 symbolic body bytes, 0..=2 descriptors; one call" stubs="vmm-sys-util raw_recvmsg/raw_sendmsg (ghost stream socket), libc::close + OwnedFd::drop (ghost descriptor table), handle_alloc_error (assume false)"
+e_fe!(e_fe_set_mem_table_1region, 5, 1);
+// @harness props=C01,C02,C03,C06,C09 tier=thorough reach=off timeout=500 bound="Frontend::set_mem_table_empty: all argument values, five 64-bit negotiation/limit words, NEED_REPLY on/off, peer reply header of one concrete class (conformant unless named in the harness), 40 symbolic body bytes, 0..=2 descriptors; one call" stubs="vmm-sys-util raw_recvmsg/raw_sendmsg (ghost stream socket), libc::close + OwnedFd::drop (ghost descriptor table), handle_alloc_error (assume false)"
+e_fe!(e_fe_set_mem_table_empty, 5, 0);
+// @harness props=C01,C02,C03,C06,C07,C09 tier=quick reach=off timeout=500 bound="Frontend::set_log_base: all argument values, five 64-bit negotiation/limit words, NEED_REPLY on/off, peer reply header of one concrete class (conformant unless named in the harness), 40 symbolic body bytes, 0..=2 descriptors; one call" stubs="vmm-sys-util raw_recvmsg/raw_sendmsg (ghost stream socket), libc::close + OwnedFd::drop (ghost descriptor table), handle_alloc_error (assume false)"
+e_fe!(e_fe_set_log_base, 6, 0);
+// @harness props=C01,C02,C03,C06,C09 tier=thorough reach=off timeout=500 bound="Frontend::set_log_fd: all argument values, five 64-bit negotiation/limit words, NEED_REPLY on/off, peer reply header of one concrete class (conformant unless named in the harness), 40 symbolic body bytes, 0..=2 descriptors; one call" stubs="vmm-sys-util raw_recvmsg/raw_sendmsg (ghost stream socket), libc::close + OwnedFd::drop (ghost descriptor table), handle_alloc_error (assume false)"
+e_fe!(e_fe_set_log_fd, 7, 0);
+// @harness props=C01,C02,C03,C06 tier=thorough reach=off timeout=500 bound="Frontend::set_vring_num: all argument values, five 64-bit negotiation/limit words, NEED_REPLY on/off, peer reply header of one concrete class (conformant unless named in the harness), 40 symbolic body bytes, 0..=2 descriptors; one call" stubs="vmm-sys-util raw_recvmsg/raw_sendmsg (ghost stream socket), libc::close + OwnedFd::drop (ghost descriptor table), handle_alloc_error (assume false)"
+e_fe!(e_fe_set_vring_num, 8, 0);
+// @harness props=C01,C02,C03,C06 tier=thorough reach=off timeout=500 bound="Frontend::set_vring_num_foreign_code: all argument values, five 64-bit negotiation/limit words, NEED_REPLY on/off, peer reply header of one concrete class (conformant unless named in the harness), 40 symbolic body bytes, 0..=2 descriptors; one call" stubs="vmm-sys-util raw_recvmsg/raw_sendmsg (ghost stream socket), libc::close + OwnedFd::drop (ghost descriptor table), handle_alloc_error (assume false)"
+e_fe!(e_fe_set_vring_num_foreign_code, 8, 256);
+// @harness props=C01,C02,C03,C06 tier=thorough reach=off timeout=500 bound="Frontend::set_vring_num_noreplyflag: all argument values, five 64-bit negotiation/limit words, NEED_REPLY on/off, peer reply header of one concrete class (conformant unless named in the harness), 40 symbolic body bytes, 0..=2 descriptors; one call" stubs="vmm-sys-util raw_recvmsg/raw_sendmsg (ghost stream socket), libc::close + OwnedFd::drop (ghost descriptor table), handle_alloc_error (assume false)"
+e_fe!(e_fe_set_vring_num_noreplyflag, 8, 512);
+// @harness props=C01,C02,C03,C06 tier=thorough reach=off timeout=500 bound="Frontend::set_vring_num_version2: all argument values, five 64-bit negotiation/limit words, NEED_REPLY on/off, peer reply header of one concrete class (conformant unless named in the harness), 40 symbolic body bytes, 0..=2 descriptors; one call" stubs="vmm-sys-util raw_recvmsg/raw_sendmsg (ghost stream socket), libc::close + OwnedFd::drop (ghost descriptor table), handle_alloc_error (assume false)"
+e_fe!(e_fe_set_vring_num_version2, 8, 768);
+// @harness props=C01,C02,C03,C06 tier=thorough reach=off timeout=500 bound="Frontend::set_vring_num_reservedbit: all argument values, five 64-bit negotiation/limit words, NEED_REPLY on/off, peer reply header of one concrete class (conformant unless named in the harness), 40 symbolic body bytes, 0..=2 descriptors; one call" stubs="vmm-sys-util raw_recvmsg/raw_sendmsg (ghost stream socket), libc::close + OwnedFd::drop (ghost descriptor table), handle_alloc_error (assume false)"
+e_fe!(e_fe_set_vring_num_reservedbit, 8, 1024);
+// @harness props=C01,C02,C03,C06 tier=thorough reach=off timeout=500 bound="Frontend::set_vring_num_size_plus1: all argument values, five 64-bit negotiation/limit words, NEED_REPLY on/off, peer reply header of one concrete class (conformant unless named in the harness), 40 symbolic body bytes, 0..=2 descriptors; one call" stubs="vmm-sys-util raw_recvmsg/raw_sendmsg (ghost stream socket), libc::close + OwnedFd::drop (ghost descriptor table), handle_alloc_error (assume false)"
+e_fe!(e_fe_set_vring_num_size_plus1, 8, 1280);
+// @harness props=C01,C02,C03,C06 tier=quick reach=off timeout=500 bound="Frontend::set_vring_addr: all argument values, five 64-bit negotiation/limit words, NEED_REPLY on/off, peer reply header of one concrete class (conformant unless named in the harness), 40 symbolic body bytes, 0..=2 descriptors; one call" stubs="vmm-sys-util raw_recvmsg/raw_sendmsg (ghost stream socket), libc::close + OwnedFd::drop (ghost descriptor table), handle_alloc_error (assume false)"
+e_fe!(e_fe_set_vring_addr, 9, 0);
+// @harness props=C01,C02,C03,C06 tier=thorough reach=off timeout=500 bound="Frontend::set_vring_base: all argument values, five 64-bit negotiation/limit words, NEED_REPLY on/off, peer reply header of one concrete class (conformant unless named in the harness), 40 symbolic body bytes, 0..=2 descriptors; one call" stubs="vmm-sys-util raw_recvmsg/raw_sendmsg (ghost stream socket), libc::close + OwnedFd::drop (ghost descriptor table), handle_alloc_error (assume false)"
+e_fe!(e_fe_set_vring_base, 10, 0);
+// @harness props=C01,C02,C03,C06 tier=quick reach=off timeout=500 bound="Frontend::get_vring_base: all argument values, five 64-bit negotiation/limit words, NEED_REPLY on/off, peer reply header of one concrete class (conformant unless named in the harness), 40 symbolic body bytes, 0..=2 descriptors; one call" stubs="vmm-sys-util raw_recvmsg/raw_sendmsg (ghost stream socket), libc::close + OwnedFd::drop (ghost descriptor table), handle_alloc_error (assume false)"
+e_fe!(e_fe_get_vring_base, 11, 0);
+// @harness props=C01,C02,C03,C06,C09 tier=quick reach=off timeout=500 bound="Frontend::set_vring_kick: all argument values, five 64-bit negotiation/limit words, NEED_REPLY on/off, peer reply header of one concrete class (conformant unless named in the harness), 40 symbolic body bytes, 0..=2 descriptors; one call" stubs="vmm-sys-util raw_recvmsg/raw_sendmsg (ghost stream socket), libc::close + OwnedFd::drop (ghost descriptor table), handle_alloc_error (assume false)"
+e_fe!(e_fe_set_vring_kick, 12, 0);
+// @harness props=C01,C02,C03,C06,C09 tier=thorough reach=off timeout=500 bound="Frontend::set_vring_call: all argument values, five 64-bit negotiation/limit words, NEED_REPLY on/off, peer reply header of one concrete class (conformant unless named in the harness), 40 symbolic body bytes, 0..=2 descriptors; one call" stubs="vmm-sys-util raw_recvmsg/raw_sendmsg (ghost stream socket), libc::close + OwnedFd::drop (ghost descriptor table), handle_alloc_error (assume false)"
+e_fe!(e_fe_set_vring_call, 13, 0);
+// @harness props=C01,C02,C03,C06,C09 tier=thorough reach=off timeout=500 bound="Frontend::set_vring_err: all argument values, five 64-bit negotiation/limit words, NEED_REPLY on/off, peer reply header of one concrete class (conformant unless named in the harness), 40 symbolic body bytes, 0..=2 descriptors; one call" stubs="vmm-sys-util raw_recvmsg/raw_sendmsg (ghost stream socket), libc::close + OwnedFd::drop (ghost descriptor table), handle_alloc_error (assume false)"
+e_fe!(e_fe_set_vring_err, 14, 0);
+// @harness props=C01,C02,C03,C06,C07 tier=quick reach=off timeout=500 bound="Frontend::get_protocol_features: all argument values, five 64-bit negotiation/limit words, NEED_REPLY on/off, peer reply header of one concrete class (conformant unless named in the harness), 40 symbolic body bytes, 0..=2 descriptors; one call" stubs="vmm-sys-util raw_recvmsg/raw_sendmsg (ghost stream socket), libc::close + OwnedFd::drop (ghost descriptor table), handle_alloc_error (assume false)"
+e_fe!(e_fe_get_protocol_features, 15, 0);
+// @harness props=C01,C02,C03,C06,C07 tier=quick reach=off timeout=500 bound="Frontend::set_protocol_features: all argument values, five 64-bit negotiation/limit words, NEED_REPLY on/off, peer reply header of one concrete class (conformant unless named in the harness), 40 symbolic body bytes, 0..=2 descriptors; one call" stubs="vmm-sys-util raw_recvmsg/raw_sendmsg (ghost stream socket), libc::close + OwnedFd::drop (ghost descriptor table), handle_alloc_error (assume false)"
+e_fe!(e_fe_set_protocol_features, 16, 0);
+// @harness props=C01,C02,C03,C06,C07 tier=thorough reach=off timeout=500 bound="Frontend::get_queue_num: all argument values, five 64-bit negotiation/limit words, NEED_REPLY on/off, peer reply header of one concrete class (conformant unless named in the harness), 40 symbolic body bytes, 0..=2 descriptors; one call" stubs="vmm-sys-util raw_recvmsg/raw_sendmsg (ghost stream socket), libc::close + OwnedFd::drop (ghost descriptor table), handle_alloc_error (assume false)"
+e_fe!(e_fe_get_queue_num, 17, 0);
+// @harness props=C01,C02,C03,C06,C07 tier=quick reach=off timeout=500 bound="Frontend::set_vring_enable: all argument values, five 64-bit negotiation/limit words, NEED_REPLY on/off, peer reply header of one concrete class (conformant unless named in the harness), 40 symbolic body bytes, 0..=2 descriptors; one call" stubs="vmm-sys-util raw_recvmsg/raw_sendmsg (ghost stream socket), libc::close + OwnedFd::drop (ghost descriptor table), handle_alloc_error (assume false)"
+e_fe!(e_fe_set_vring_enable, 18, 0);
+// @harness props=C01,C02,C03,C06,C07,C09 tier=thorough reach=off timeout=500 bound="Frontend::set_backend_req_fd: all argument values, five 64-bit negotiation/limit words, NEED_REPLY on/off, peer reply header of one concrete class (conformant unless named in the harness), 40 symbolic body bytes, 0..=2 descriptors; one call" stubs="vmm-sys-util raw_recvmsg/raw_sendmsg (ghost stream socket), libc::close + OwnedFd::drop (ghost descriptor table), handle_alloc_error (assume false)"
+e_fe!(e_fe_set_backend_req_fd, 21, 0);
+// @harness props=C01,C02,C03,C06,C07 tier=quick reach=off timeout=500 bound="Frontend::set_config_len4: all argument values, five 64-bit negotiation/limit words, NEED_REPLY on/off, peer reply header of one concrete class (conformant unless named in the harness), 40 symbolic body bytes, 0..=2 descriptors; one call" stubs="vmm-sys-util raw_recvmsg/raw_sendmsg (ghost stream socket), libc::close + OwnedFd::drop (ghost descriptor table), handle_alloc_error (assume false)"
+e_fe!(e_fe_set_config_len4, 25, 4);
+// @harness props=C01,C02,C03,C06,C07 tier=thorough reach=off timeout=500 bound="Frontend::set_config_len1: all argument values, five 64-bit negotiation/limit words, NEED_REPLY on/off, peer reply header of one concrete class (conformant unless named in the harness), 40 symbolic body bytes, 0..=2 descriptors; one call" stubs="vmm-sys-util raw_recvmsg/raw_sendmsg (ghost stream socket), libc::close + OwnedFd::drop (ghost descriptor table), handle_alloc_error (assume false)"
+e_fe!(e_fe_set_config_len1, 25, 1);
+// @harness props=C01,C02,C03,C06,C07 tier=thorough reach=off timeout=500 bound="Frontend::set_config_len0: all argument values, five 64-bit negotiation/limit words, NEED_REPLY on/off, peer reply header of one concrete class (conformant unless named in the harness), 40 symbolic body bytes, 0..=2 descriptors; one call" stubs="vmm-sys-util raw_recvmsg/raw_sendmsg (ghost stream socket), libc::close + OwnedFd::drop (ghost descriptor table), handle_alloc_error (assume false)"
+e_fe!(e_fe_set_config_len0, 25, 0);
+// @harness props=C01,C02,C03,C06,C07,C09 tier=quick reach=off timeout=500 bound="Frontend::get_inflight_fd: all argument values, five 64-bit negotiation/limit words, NEED_REPLY on/off, peer reply header of one concrete class (conformant unless named in the harness), 40 symbolic body bytes, 0..=2 descriptors; one call" stubs="vmm-sys-util raw_recvmsg/raw_sendmsg (ghost stream socket), libc::close + OwnedFd::drop (ghost descriptor table), handle_alloc_error (assume false)"
+e_fe!(e_fe_get_inflight_fd, 31, 0);
+// @harness props=C01,C02,C03,C06,C07,C09 tier=thorough reach=off timeout=500 bound="Frontend::get_inflight_fd_foreign_code: all argument values, five 64-bit negotiation/limit words, NEED_REPLY on/off, peer reply header of one concrete class (conformant unless named in the harness), 40 symbolic body bytes, 0..=2 descriptors; one call" stubs="vmm-sys-util raw_recvmsg/raw_sendmsg (ghost stream socket), libc::close + OwnedFd::drop (ghost descriptor table), handle_alloc_error (assume false)"
+e_fe!(e_fe_get_inflight_fd_foreign_code, 31, 256);
+// @harness props=C01,C02,C03,C06,C07,C09 tier=thorough reach=off timeout=500 bound="Frontend::get_inflight_fd_noreplyflag: all argument values, five 64-bit negotiation/limit words, NEED_REPLY on/off, peer reply header of one concrete class (conformant unless named in the harness), 40 symbolic body bytes, 0..=2 descriptors; one call" stubs="vmm-sys-util raw_recvmsg/raw_sendmsg (ghost stream socket), libc::close + OwnedFd::drop (ghost descriptor table), handle_alloc_error (assume false)"
+e_fe!(e_fe_get_inflight_fd_noreplyflag, 31, 512);
+// @harness props=C01,C02,C03,C06,C07,C09 tier=thorough reach=off timeout=500 bound="Frontend::get_inflight_fd_version2: all argument values, five 64-bit negotiation/limit words, NEED_REPLY on/off, peer reply header of one concrete class (conformant unless named in the harness), 40 symbolic body bytes, 0..=2 descriptors; one call" stubs="vmm-sys-util raw_recvmsg/raw_sendmsg (ghost stream socket), libc::close + OwnedFd::drop (ghost descriptor table), handle_alloc_error (assume false)"
+e_fe!(e_fe_get_inflight_fd_version2, 31, 768);
+// @harness props=C01,C02,C03,C06,C07,C09 tier=thorough reach=off timeout=500 bound="Frontend::get_inflight_fd_reservedbit: all argument values, five 64-bit negotiation/limit words, NEED_REPLY on/off, peer reply header of one concrete class (conformant unless named in the harness), 40 symbolic body bytes, 0..=2 descriptors; one call" stubs="vmm-sys-util raw_recvmsg/raw_sendmsg (ghost stream socket), libc::close + OwnedFd::drop (ghost descriptor table), handle_alloc_error (assume false)"
+e_fe!(e_fe_get_inflight_fd_reservedbit, 31, 1024);
+// @harness props=C01,C02,C03,C06,C07,C09 tier=thorough reach=off timeout=500 bound="Frontend::get_inflight_fd_size_plus1: all argument values, five 64-bit negotiation/limit words, NEED_REPLY on/off, peer reply header of one concrete class (conformant unless named in the harness), 40 symbolic body bytes, 0..=2 descriptors; one call" stubs="vmm-sys-util raw_recvmsg/raw_sendmsg (ghost stream socket), libc::close + OwnedFd::drop (ghost descriptor table), handle_alloc_error (assume false)"
+e_fe!(e_fe_get_inflight_fd_size_plus1, 31, 1280);
+// @harness props=C01,C02,C03,C06,C07,C09 tier=thorough reach=off timeout=500 bound="Frontend::set_inflight_fd: all argument values, five 64-bit negotiation/limit words, NEED_REPLY on/off, peer reply header of one concrete class (conformant unless named in the harness), 40 symbolic body bytes, 0..=2 descriptors; one call" stubs="vmm-sys-util raw_recvmsg/raw_sendmsg (ghost stream socket), libc::close + OwnedFd::drop (ghost descriptor table), handle_alloc_error (assume false)"
+e_fe!(e_fe_set_inflight_fd, 32, 0);
+// @harness props=C01,C02,C03,C06,C07 tier=thorough reach=off timeout=500 bound="Frontend::reset_device: all argument values, five 64-bit negotiation/limit words, NEED_REPLY on/off, peer reply header of one concrete class (conformant unless named in the harness), 40 symbolic body bytes, 0..=2 descriptors; one call" stubs="vmm-sys-util raw_recvmsg/raw_sendmsg (ghost stream socket), libc::close + OwnedFd::drop (ghost descriptor table), handle_alloc_error (assume false)"
+e_fe!(e_fe_reset_device, 34, 0);
+// @harness props=C01,C02,C03,C06,C07 tier=thorough reach=off timeout=500 bound="Frontend::get_max_mem_slots: all argument values, five 64-bit negotiation/limit words, NEED_REPLY on/off, peer reply header of one concrete class (conformant unless named in the harness), 40 symbolic body bytes, 0..=2 descriptors; one call" stubs="vmm-sys-util raw_recvmsg/raw_sendmsg (ghost stream socket), libc::close + OwnedFd::drop (ghost descriptor table), handle_alloc_error (assume false)"
+e_fe!(e_fe_get_max_mem_slots, 36, 0);
+// @harness props=C01,C02,C03,C06,C07,C09 tier=quick reach=off timeout=500 bound="Frontend::add_mem_reg: all argument values, five 64-bit negotiation/limit words, NEED_REPLY on/off, peer reply header of one concrete class (conformant unless named in the harness), 40 symbolic body bytes, 0..=2 descriptors; one call" stubs="vmm-sys-util raw_recvmsg/raw_sendmsg (ghost stream socket), libc::close + OwnedFd::drop (ghost descriptor table), handle_alloc_error (assume false)"
+e_fe!(e_fe_add_mem_reg, 37, 0);
+// @harness props=C01,C02,C03,C06,C07 tier=thorough reach=off timeout=500 bound="Frontend::rem_mem_reg: all argument values, five 64-bit negotiation/limit words, NEED_REPLY on/off, peer reply header of one concrete class (conformant unless named in the harness), 40 symbolic body bytes, 0..=2 descriptors; one call" stubs="vmm-sys-util raw_recvmsg/raw_sendmsg (ghost stream socket), libc::close + OwnedFd::drop (ghost descriptor table), handle_alloc_error (assume false)"
+e_fe!(e_fe_rem_mem_reg, 38, 0);
+// @harness props=C01,C02,C03,C06,C07,C09 tier=quick reach=off timeout=500 bound="Frontend::get_shared_object: all argument values, five 64-bit negotiation/limit words, NEED_REPLY on/off, peer reply header of one concrete class (conformant unless named in the harness), 40 symbolic body bytes, 0..=2 descriptors; one call" stubs="vmm-sys-util raw_recvmsg/raw_sendmsg (ghost stream socket), libc::close + OwnedFd::drop (ghost descriptor table), handle_alloc_error (assume false)"
+e_fe!(e_fe_get_shared_object, 41, 0);
+// @harness props=C01,C02,C03,C06,C07,C09 tier=thorough reach=off timeout=500 bound="Frontend::get_shared_object_foreign_code: all argument values, five 64-bit negotiation/limit words, NEED_REPLY on/off, peer reply header of one concrete class (conformant unless named in the harness), 40 symbolic body bytes, 0..=2 descriptors; one call" stubs="vmm-sys-util raw_recvmsg/raw_sendmsg (ghost stream socket), libc::close + OwnedFd::drop (ghost descriptor table), handle_alloc_error (assume false)"
+e_fe!(e_fe_get_shared_object_foreign_code, 41, 256);
+// @harness props=C01,C02,C03,C06,C07,C09 tier=thorough reach=off timeout=500 bound="Frontend::get_shared_object_noreplyflag: all argument values, five 64-bit negotiation/limit words, NEED_REPLY on/off, peer reply header of one concrete class (conformant unless named in the harness), 40 symbolic body bytes, 0..=2 descriptors; one call" stubs="vmm-sys-util raw_recvmsg/raw_sendmsg (ghost stream socket), libc::close + OwnedFd::drop (ghost descriptor table), handle_alloc_error (assume false)"
+e_fe!(e_fe_get_shared_object_noreplyflag, 41, 512);
+// @harness props=C01,C02,C03,C06,C07,C09 tier=thorough reach=off timeout=500 bound="Frontend::get_shared_object_version2: all argument values, five 64-bit negotiation/limit words, NEED_REPLY on/off, peer reply header of one concrete class (conformant unless named in the harness), 40 symbolic body bytes, 0..=2 descriptors; one call" stubs="vmm-sys-util raw_recvmsg/raw_sendmsg (ghost stream socket), libc::close + OwnedFd::drop (ghost descriptor table), handle_alloc_error (assume false)"
+e_fe!(e_fe_get_shared_object_version2, 41, 768);
+// @harness props=C01,C02,C03,C06,C07,C09 tier=thorough reach=off timeout=500 bound="Frontend::get_shared_object_reservedbit: all argument values, five 64-bit negotiation/limit words, NEED_REPLY on/off, peer reply header of one concrete class (conformant unless named in the harness), 40 symbolic body bytes, 0..=2 descriptors; one call" stubs="vmm-sys-util raw_recvmsg/raw_sendmsg (ghost stream socket), libc::close + OwnedFd::drop (ghost descriptor table), handle_alloc_error (assume false)"
+e_fe!(e_fe_get_shared_object_reservedbit, 41, 1024);
+// @harness props=C01,C02,C03,C06,C07,C09 tier=thorough reach=off timeout=500 bound="Frontend::get_shared_object_size_plus1: all argument values, five 64-bit negotiation/limit words, NEED_REPLY on/off, peer reply header of one concrete class (conformant unless named in the harness), 40 symbolic body bytes, 0..=2 descriptors; one call" stubs="vmm-sys-util raw_recvmsg/raw_sendmsg (ghost stream socket), libc::close + OwnedFd::drop (ghost descriptor table), handle_alloc_error (assume false)"
+e_fe!(e_fe_get_shared_object_size_plus1, 41, 1280);
+// @harness props=C01,C02,C03,C06,C07,C09 tier=quick reach=off timeout=500 bound="Frontend::set_device_state_fd_file: all argument values, five 64-bit negotiation/limit words, NEED_REPLY on/off, peer reply header of one concrete class (conformant unless named in the harness), 40 symbolic body bytes, 0..=2 descriptors; one call" stubs="vmm-sys-util raw_recvmsg/raw_sendmsg (ghost stream socket), libc::close + OwnedFd::drop (ghost descriptor table), handle_alloc_error (assume false)"
+e_fe!(e_fe_set_device_state_fd_file, 42, 0);
+// @harness props=C01,C02,C03,C06,C07,C09 tier=thorough reach=off timeout=500 bound="Frontend::set_device_state_fd_nofile: all argument values, five 64-bit negotiation/limit words, NEED_REPLY on/off, peer reply header of one concrete class (conformant unless named in the harness), 40 symbolic body bytes, 0..=2 descriptors; one call" stubs="vmm-sys-util raw_recvmsg/raw_sendmsg (ghost stream socket), libc::close + OwnedFd::drop (ghost descriptor table), handle_alloc_error (assume false)"
+e_fe!(e_fe_set_device_state_fd_nofile, 42, 1);
+// @harness props=C01,C02,C03,C06,C07 tier=quick reach=off timeout=500 bound="Frontend::check_device_state: all argument values, five 64-bit negotiation/limit words, NEED_REPLY on/off, peer reply header of one concrete class (conformant unless named in the harness), 40 symbolic body bytes, 0..=2 descriptors; one call" stubs="vmm-sys-util raw_recvmsg/raw_sendmsg (ghost stream socket), libc::close + OwnedFd::drop (ghost descriptor table), handle_alloc_error (assume false)"
+e_fe!(e_fe_check_device_state, 43, 0);
+// @harness props=C01,C03,C06,C07 tier=quick reach=off timeout=500 bound="Frontend::get_config(offset 0x10, 4 bytes, WRITABLE): conformant reply with 4 payload bytes; request/reply payload bytes and negotiation words symbolic" stubs="vmm-sys-util raw_recvmsg/raw_sendmsg (ghost stream socket), libc::close + OwnedFd::drop (ghost descriptor table), handle_alloc_error (assume false)"
+e_fe_cfg!(e_fe_get_config_reply, 0);
+// @harness props=C01,C03,C06,C07 tier=quick reach=off timeout=500 bound="Frontend::get_config(offset 0x10, 4 bytes, WRITABLE): failure encoding: config header with size 0, no payload, peer stays connected; request/reply payload bytes and negotiation words symbolic" stubs="vmm-sys-util raw_recvmsg/raw_sendmsg (ghost stream socket), libc::close + OwnedFd::drop (ghost descriptor table), handle_alloc_error (assume false)"
+e_fe_cfg!(e_fe_get_config_failure, 1);
+// @harness props=C01,C03,C06,C07 tier=thorough reach=off timeout=500 bound="Frontend::get_config(offset 0x10, 4 bytes, WRITABLE): reply describing another offset; request/reply payload bytes and negotiation words symbolic" stubs="vmm-sys-util raw_recvmsg/raw_sendmsg (ghost stream socket), libc::close + OwnedFd::drop (ghost descriptor table), handle_alloc_error (assume false)"
+e_fe_cfg!(e_fe_get_config_other_window, 2);
+// @harness props=C01,C03,C06,C07 tier=thorough reach=off timeout=500 bound="Frontend::get_config(offset 0x10, 4 bytes, WRITABLE): reply whose config size field is 3; request/reply payload bytes and negotiation words symbolic" stubs="vmm-sys-util raw_recvmsg/raw_sendmsg (ghost stream socket), libc::close + OwnedFd::drop (ghost descriptor table), handle_alloc_error (assume false)"
+e_fe_cfg!(e_fe_get_config_short_size, 3);
